@@ -128,7 +128,8 @@ def dtype_boundaries(r, quick):
     out = []
     names = list(gen.SMBO) + ["DirectAlgorithm", "GridSearchOptimizer", "PatternSearch", "ParticleSwarmOptimizer", "HillClimbingOptimizer"]
     for name in names:
-        for size in ([200] if quick else [127, 128, 129, 200, 254, 255, 256, 300]):
+        big = [] if (quick or name in gen.SMBO) else [65534, 65535, 65536, 70000]
+        for size in ([200] if quick else [127, 128, 129, 200, 254, 255, 256, 300] + big):
             for second in ([None] if quick else [None, 7]):
                 space = {"x0": [float(i) * 0.5 - 3 for i in range(size)]}
                 if second:
